@@ -66,6 +66,27 @@ def run(ctx: Ctx):
            "candidate index is not split as (index // V, index % V) with the vocabulary size", rel,
            topk_assign.lineno)
 
+    # the beam keeps min(width, number of candidates); candidates = (old width) x (vocabulary)
+    from sa.norm import Normalizer, padd, pmul, pstr
+    shp = [n for n in own_nodes(adv.node) if isinstance(n, ast.Assign) and isinstance(n.targets[0], ast.Tuple)
+           and u(n.value) == "log_probs_t.shape" and len(n.targets[0].elts) == 3]
+    kdef = [n for n in own_nodes(adv.node) if isinstance(n, ast.Assign) and isinstance(n.value, ast.Call)
+            and call_name(n.value) == "min" and len(n.value.args) == 2 and any(u(a) == "width" for a in n.value.args)]
+    okk = False
+    if shp and kdef:
+        kp, vv = [t.id for t in shp[0].targets[0].elts[1:]]
+        other = [a for a in kdef[0].value.args if u(a) != "width"][0]
+        nz = Normalizer()
+        want = pmul(nz.poly(ast.Name(id=kp, ctx=ast.Load())), nz.poly(ast.Name(id=vv, ctx=ast.Load())))
+        okk = not padd(nz.poly(other), want, -1)
+        kname = u(kdef[0].targets[0])
+        okk = okk and u(topk_assign.value.args[0]) == kname
+    col.ob("G12", "S1", f"{rel}::{ADV}::K=min(width, old_width*V)", okk,
+           f"the number of kept candidates is `{u(kdef[0].value) if kdef else None}`; the flattened candidate axis has "
+           f"old_width * V entries, so fewer are kept than exist when the beam is wider than the vocabulary (the "
+           f"search is not exhaustive at large width)", rel, kdef[0].lineno if kdef else adv.line,
+           sample=u(kdef[0]) if kdef else None)
+
     # ---- S2 model state follows survivors -------------------------------------------------------
     in_next = sl.slot_name(sl.calc_assign, (1,))
     ex = [c for c in own_calls(fwd.node) if isinstance(c.func, ast.Attribute) and c.func.attr == "extract_by_src"]
@@ -137,6 +158,32 @@ def run(ctx: Ctx):
     col.ob("G13", "S4", f"{where}::finished-paths-length-frozen", len(dec) == 1 and "gather" in u(dec[0].value.right),
            "the length of a path that had finished before the step is not decremented back (lengths would count "
            "the re-emitted eos)", rel, dec[0].lineno if dec else fwd.line, sample=u(dec[0]) if dec else None)
+    # the "already finished" mask: last token == eos AND the path is non-empty; the gather index is (len - 1)
+    # clamped at 0, so the validity test must be exactly len - 1 >= 0 (len > 0)
+    em = [n for n in own_nodes(fwd.node) if isinstance(n, ast.Assign) and isinstance(n.value, ast.BinOp)
+          and isinstance(n.value.op, ast.BitAnd) and "self.eos" in u(n.value) and "gather" in u(n.value)]
+    okm = False
+    detail = None
+    if em:
+        cmpn = [x for x in (em[0].value.left, em[0].value.right) if isinstance(x, ast.Compare) and "self.eos" not in u(x)]
+        idx = [x for x in ast.walk(em[0].value) if isinstance(x, ast.Call) and isinstance(x.func, ast.Attribute)
+               and x.func.attr == "clamp" and any(k.arg == "min" and u(k.value) == "0" for k in x.keywords)]
+        if len(cmpn) == 1 and len(idx) == 1:
+            c_, ix = cmpn[0], idx[0].func.value
+            detail = (u(ix), u(c_))
+            nz = Normalizer()
+            # integer domain: L > c  <=>  L - c - 1 >= 0 ;  L >= c  <=>  L - c >= 0
+            opn = type(c_.ops[0]).__name__
+            lhs = padd(nz.poly(c_.left), nz.poly(c_.comparators[0]), -1)
+            if opn == "Gt":
+                lhs = padd(lhs, nz.poly(ast.Constant(value=1)), -1)
+                opn = "GtE"
+            okm = opn == "GtE" and not padd(lhs, nz.poly(ix), -1)
+    col.ob("G12", "S4", f"{where}::finished-mask-validity==clamped-index-domain", okm,
+           f"a path counts as finished iff its token at index clamp({detail[0] if detail else '?'}, 0) is eos and "
+           f"`{detail[1] if detail else '?'}`; the validity test must be exactly 'index >= 0' (length > 0), otherwise a "
+           f"path consisting of eos alone is not frozen (or an empty path is)", rel, em[0].lineno if em else fwd.line,
+           sample=detail)
     # padding: pad_y uses self.pad_value; scores padded with -inf (both _to_width and advance)
     pads = [n for n in own_nodes(fwd.node) if isinstance(n, ast.Assign) and isinstance(n.value, ast.Call)
             and call_name(n.value) == "torch.full" and "pad" in u(n.targets[0])]
@@ -207,6 +254,8 @@ def _mutants():
           "cand_log_probs = log_probs_t.flatten(1)", "candidates=prev+ext"),
         M("lens-scores-swapped-feedback", D, "y_prev_lens = y_next_lens\nlog_probs_prev = log_probs_next",
           "y_prev_lens = y_next_lens\nlog_probs_prev = log_probs_t.max(2)[0]", "log_probs_prev<-slot 2"),
+        M("K-min-width-V", D, "K = min(width, Kp * V)\n    cand_log_probs", "K = min(width, V)\n    cand_log_probs", "K=min(width"),
+        M("eos-guard-off-by-one", D, "& (y_prev_lens > 0)", "& (y_prev_lens > 1)", "finished-mask-validity"),
         M("twin:rename-in-next", D, "in_next", "state_next", "", -1, twin=True),
     ]
 
